@@ -183,7 +183,11 @@ def run_shard(ctx):
         model = []
         res = CHText()
         n_chunks = rng.choice([1, 1, 2, 3, 5])
+        if rng.random() < 0.02:
+            n_chunks = rng.choice([127, 128, 129, 200, 520])   # hundreds of sequences in one string
+            ctx.count("texts_of_more_than_100_chunks")
         ok = True
+        chunks = []
         for _ in range(n_chunks):
             color, bg = rand_value(rng), rand_value(rng)
             eff = [e for e in EFFECT_NAMES if rng.random() < 0.25]
@@ -198,6 +202,7 @@ def run_shard(ctx):
                 ctx.nontrivial(repr((jv(color), jv(bg), eff)))
             parts.append(case)
             res += chunk
+            chunks.append((chunk, text, want))
             model += [(c, want) for c in text]
             if rng.random() < 0.5:
                 # the text is rendered (and measured) while it is being assembled
@@ -223,6 +228,22 @@ def run_shard(ctx):
             ctx.violation("malformed-or-bleeding-sequence", {"err": str(err), "out": str(res)[:80]}, case)
         if CHText.strip_colors(str(res)) != res.plain_text() or res.plain_text() != "".join(c for c, _ in model):
             ctx.violation("strip-colors-leaves-sequences", {"stripped": CHText.strip_colors(str(res))[:80]}, case)
+        if len(chunks) <= 5:
+            # the same chunks assembled by join on a coloured separator (a chunk or a text)
+            (sep, sep_text, sep_want), items = chunks[0], chunks[1:]
+            joiner = sep if rng.random() < 0.5 else CHText(sep)
+            joined = joiner.join([c if rng.random() < 0.7 else CHText(c) for c, _, _ in items] + ["pl"])
+            jmodel = []
+            for k, (_, text, want) in enumerate(items):
+                jmodel += [(c, want) for c in text] + [(c, sep_want) for c in sep_text]
+            jmodel += [(c, sgr.DEFAULT) for c in "pl"]
+            ctx.count("joined_texts")
+            try:
+                if sgr.cells(str(joined)) != jmodel:
+                    ctx.violation("joined-text-shows-wrong-colours",
+                                  {"out": str(joined)[:120], "separator_is_chunk": joiner is sep}, case)
+            except sgr.SgrError as err:
+                ctx.violation("malformed-or-bleeding-sequence", {"err": str(err), "out": str(joined)[:80]}, case)
         if i < 30 and len(ctx.samples) < 2:
             ctx.sample({"parts": parts, "rendered": str(res)})
 
@@ -237,6 +258,7 @@ def replay(ctx, case):
     else:
         res = CHText()
         model = []
+        chunks = []
         for p in case["parts"]:
             if p["kind"] == "plain":
                 res += p["text"]
@@ -247,6 +269,21 @@ def replay(ctx, case):
                     return
                 res += got[0]
                 model += [(c, got[1]) for c in p["text"]]
+                chunks.append((got[0], p["text"], got[1]))
+        if CHText.strip_colors(str(res)) != res.plain_text():
+            ctx.violation("strip-colors-leaves-sequences", {"stripped": CHText.strip_colors(str(res))[:80]}, case)
+        if 2 <= len(chunks) <= 5:
+            (sep, sep_text, sep_want), items = chunks[0], chunks[1:]
+            for joiner in (sep, CHText(sep)):
+                jmodel = []
+                for _, text, want in items:
+                    jmodel += [(c, want) for c in text] + [(c, sep_want) for c in sep_text]
+                jmodel += [(c, sgr.DEFAULT) for c in "pl"]
+                try:
+                    if sgr.cells(str(joiner.join([c for c, _, _ in items] + ["pl"]))) != jmodel:
+                        ctx.violation("joined-text-shows-wrong-colours", {"separator_is_chunk": joiner is sep}, case)
+                except sgr.SgrError as err:
+                    ctx.violation("malformed-or-bleeding-sequence", {"err": str(err)}, case)
         try:
             if sgr.cells(str(res)) != model:
                 ctx.violation("multi-chunk-text-shows-wrong-colours", {"out": str(res)[:120]}, case)
